@@ -11,6 +11,7 @@ import Dassh.Model.Power
 import Dassh.Model.Orifice
 import Dassh.Model.Accept
 import Dassh.Model.Pin
+import Dassh.Model.Regions
 
 open Dassh.Model
 
@@ -115,6 +116,12 @@ def handle (line : String) : String :=
       let ts := tid + gap
       let fuel := Pin.fuelShells qd ts (floatPairs vs)
       "ok " ++ showFloats ([Pin.cladOD cl, Pin.cladMW cl, tid, ts] ++ fuel)
+    | _, _ => "bad-op"
+  | "region" :: rest =>
+    -- region bnds... | z...   (Regions.activeRegion for every z)
+    let (bs, zs) := splitBar rest
+    match natList bs, natList zs with
+    | some b, some z => "ok " ++ showNats (z.map (Regions.activeRegion b))
     | _, _ => "bad-op"
   | "clamp" :: rest =>
     -- clamp m | lims...   (Orifice.clampGroup)
